@@ -271,9 +271,8 @@ def judge(case, obs):
     raw = obs.get("raw") or ""
     if case["kind"] == "param" and case.get("var") and case.get("tail") not in (None, 0):
         # decided on the input (the call supplies something for the variadic tail) AND on the symptom
-        if case["tail"] == "list" and obs.get("outcome") == "panic" and "reflect: cannot use" in raw and "in Call" in raw:
-            cls = VARIADIC_CLASS
-        elif case["tail"] != "list" and obs.get("outcome") == "err" and "expected a list" in raw:
+        # (a list in the place of the tail used to panic inside reflect: repaired in /repo cfe0f4b - a recurrence is a violation)
+        if case["tail"] != "list" and obs.get("outcome") == "err" and "expected a list" in raw:
             cls = VARIADIC_CLASS
         elif case["tail"] != "list" and obs.get("outcome") == "ok" and " nil" in " " + case["src"].split("(", 1)[1].replace(",", " ").replace(")", " "):
             cls = VARIADIC_CLASS      # a nil where the tail begins is handed over as ONE element holding a nil slice
